@@ -41,7 +41,7 @@ REQUIRED = ('refunds', 'side_pots', 'odd_chip_remainders', 'rake_taken',
             'forks')
 
 CUSTOMS = ('kuhn', 'draw5', 'stud5', 'greek', 'courchevel', 'holdem8',
-           'plo8', 'badugi1', 'razzdraw', 'random', 'openstud')
+           'plo8', 'badugi1', 'razzdraw', 'random', 'openstud', 'drawboard')
 
 
 def tol_of(ctx, total):
